@@ -27,6 +27,8 @@ type VerifHookSet struct {
 	Frame func(conn interface{}, cid string, data []byte)
 	// HTTPWait is called before a HTTP handler waits for its temporary connection.
 	HTTPWait func(conn interface{}, cid string)
+	// Throttle is called with each throttle a callback is added to.
+	Throttle func(t *Throttle)
 }
 
 // VerifHooks is set by the harness before any service is started.
@@ -206,4 +208,18 @@ func (c *Cache) VerifConns() []string {
 	}
 	sort.Strings(out)
 	return out
+}
+
+func verifThrottle(t *Throttle) {
+	if h := VerifHooks; h != nil && h.Throttle != nil {
+		h.Throttle(t)
+	}
+}
+
+// VerifState returns the throttle's limit, the number of running callbacks
+// and the number of queued callbacks.
+func (t *Throttle) VerifState() (limit, running, queued int) {
+	t.mu.Lock()
+	defer t.mu.Unlock()
+	return t.limit, t.running, len(t.queue)
 }
